@@ -5,6 +5,7 @@ go 1.20
 require (
 	github.com/Comcast/sheens v0.0.0
 	github.com/jsccast/yaml v0.0.0-20171213031114-31aa0bbd42f2
+	gopkg.in/yaml.v2 v2.4.0
 )
 
 require (
@@ -15,7 +16,6 @@ require (
 	github.com/gorhill/cronexpr v0.0.0-20180427100037-88b0669f7d75 // indirect
 	github.com/russross/blackfriday/v2 v2.1.0 // indirect
 	golang.org/x/text v0.13.0 // indirect
-	gopkg.in/yaml.v2 v2.4.0 // indirect
 )
 
 replace github.com/Comcast/sheens => /repo
